@@ -12,7 +12,7 @@
    (C03_merged_parameters_are_layered).  Also proved: result uniqueness (state / fuel / order
    independence of successful results), closedness, the error for a missing key. *)
 From RV Require Import Model.Yaml Model.Interp Proofs.WfFacts Proofs.InterpFacts Proofs.StateIndep Proofs.Mono Proofs.RefFacts
-     Proofs.YamlFacts Proofs.PathFacts Proofs.Refinement Proofs.Layered Proofs.OrderIndep.
+     Proofs.YamlFacts Proofs.PathFacts Proofs.Refinement Proofs.Layered Proofs.OrderIndep Proofs.DefiningClass.
 From Coq Require Import Permutation.
 
 (** A parameter whose whole value is a reference ${k} to a top-level parameter renders to exactly
@@ -100,6 +100,39 @@ Theorem C03_result_does_not_depend_on_the_order_of_parameters :
                  Permutation m m' /\ forall k, m_get k m = m_get k m'.
 Proof. exact render_is_order_independent. Qed.
 Eval cbv in "ASSUMPTIONS-OF C03_result_does_not_depend_on_the_order_of_parameters"%string. Print Assumptions C03_result_does_not_depend_on_the_order_of_parameters.
+
+(** "... or on which class defines the target": the classes' parameter mappings are merged in
+    order ([merge_classes]); the definition [e] of a parameter is moved from one class to a later
+    one, and neither the rest of those two classes nor any class in between touches that parameter
+    ([kx]: the key without its marker).  The merged parameters are then a permutation of each other,
+    and the node renders to the same parameters, key by key -- references to the moved target
+    included. *)
+Theorem C03_result_does_not_depend_on_the_defining_class :
+  forall ls1 a e b ls2 c ls3 m f r,
+    Forall (fun y => kx y <> kx e) (b ++ List.concat ls2 ++ c) ->
+    merge_classes (ls1 ++ (a ++ e :: b) :: ls2 ++ c :: ls3) [] = Ok m ->
+    wf (VMap m) -> render_with_self f (VMap m) = Ok r ->
+    exists m' mm mm',
+      merge_classes (ls1 ++ (a ++ b) :: ls2 ++ (c ++ [e]) :: ls3) [] = Ok m' /\
+      r = VMap mm /\ render_with_self f (VMap m') = Ok (VMap mm') /\ forall k, m_get k mm = m_get k mm'.
+Proof. exact render_does_not_depend_on_the_defining_class. Qed.
+Eval cbv in "ASSUMPTIONS-OF C03_result_does_not_depend_on_the_defining_class"%string. Print Assumptions C03_result_does_not_depend_on_the_defining_class.
+
+(** non-vacuity: the target t moves from the first class to the third; x refers to it *)
+Example C03_defining_class_nonvacuous :
+  let ex := mk_entry (VStr "x") (VStr "${t:a}") false false in
+  let et := mk_entry (VStr "t") (VMap [mk_entry (VStr "a") (VNum (NInt 1)) false false]) false false in
+  let ey := mk_entry (VStr "y") (VNum (NInt 2)) false false in
+  let ez := mk_entry (VStr "z") (VNum (NInt 3)) false false in
+  Forall (fun y => kx y <> kx et) ([] ++ List.concat [[ey]] ++ [ez]) /\
+  exists m, merge_classes ([] ++ ([ex] ++ et :: []) :: [[ey]] ++ [ez] :: []) [] = Ok m /\ wf (VMap m) /\
+            exists r, render_with_self 40 (VMap m) = Ok r.
+Proof.
+  cbn zeta. split.
+  - repeat constructor; cbv; discriminate.
+  - eexists. split; [vm_compute; reflexivity|]. split; [cbn; repeat split; repeat constructor; cbn; intuition discriminate|].
+    eexists. vm_compute. reflexivity.
+Qed.
 
 (** Non-vacuity: a reference into a three-layer mapping defined after the referencing key, and a
     nested path. *)
